@@ -240,8 +240,44 @@ Qed.
 
 (* ---------------------------------------------------------------------- members *)
 
-Lemma view_one_attrs : forall l, view (map one_attr l) = match l with [] => [] | a :: _ => [a] end.
-Proof. destruct l; reflexivity. Qed.
+Lemma view_app : forall a b, view (a ++ b) = view a ++ view b.
+Proof.
+  induction a as [|x a IH]; intros b; [reflexivity|].
+  destruct x; cbn [app view]; rewrite IH; [reflexivity | rewrite app_assoc; reflexivity | reflexivity].
+Qed.
+
+Lemma view_one_attrs : forall l, view (map one_attr l) = l.
+Proof. induction l as [|a l IH]; [reflexivity|]. cbn [map one_attr view app]. rewrite IH. reflexivity. Qed.
+
+Lemma pick_acc {A} (sel : rarg -> option A) : forall l acc,
+  fold_left (fun acc a => match sel a with Some x => Some x | None => acc end) l acc
+  = match pick sel l with Some x => Some x | None => acc end.
+Proof.
+  unfold pick. induction l as [|a l IH]; intros acc; cbn [fold_left]; [reflexivity|].
+  rewrite (IH (match sel a with Some x => Some x | None => acc end)),
+          (IH (match sel a with Some x => Some x | None => None end)).
+  match goal with |- context [fold_left ?f l None] => destruct (fold_left f l None) end; [reflexivity|].
+  destruct (sel a); reflexivity.
+Qed.
+
+Lemma pick_app {A} (sel : rarg -> option A) : forall l1 l2,
+  pick sel (l1 ++ l2) = match pick sel l2 with Some x => Some x | None => pick sel l1 end.
+Proof. intros l1 l2. unfold pick at 1. rewrite fold_left_app. apply pick_acc. Qed.
+
+Lemma pick_cons {A} (sel : rarg -> option A) : forall a l,
+  pick sel (a :: l) = match pick sel l with Some x => Some x | None => sel a end.
+Proof.
+  intros a l. unfold pick at 1. cbn [fold_left]. rewrite pick_acc.
+  destruct (pick sel l); [reflexivity|]. destruct (sel a); reflexivity.
+Qed.
+
+Lemma pick_none {A} (sel : rarg -> option A) : forall l,
+  (forall a, In a l -> sel a = None) -> pick sel l = None.
+Proof.
+  induction l as [|a l IH]; intros H; [reflexivity|]. rewrite pick_cons, IH.
+  - apply H. left. reflexivity.
+  - intros b Hb. apply H. right. exact Hb.
+Qed.
 
 Lemma opt_flag_agrees : forall A, existsb is_opt_arg (rec_args A) = is_optional A.
 Proof.
@@ -288,11 +324,10 @@ Lemma member_shape_ok : forall eb ed ea mods m fs,
   tspec_wf (m_type m) = true ->
   (tspec_bounded (m_type m) = true -> eb = true) ->
   (existsb multi_dim (m_d0 m :: m_ds m) = true -> ed = true) ->
-  (member_split m = true -> ea = true) ->
   gen_member mods m = Some fs ->
   map (ms_erase eb ed ea) (map (field_shape (length mods)) fs) = map (ms_erase eb ed ea) (member_shapes m).
 Proof.
-  intros eb ed ea mods [A t d0 ds] fs. cbn [m_annots m_type m_d0 m_ds]. intros Hwf Hb Hd Hsp.
+  intros eb ed ea mods [A t d0 ds] fs. cbn [m_annots m_type m_d0 m_ds]. intros Hwf Hb Hd.
   unfold gen_member, member_shapes. cbn [m_annots m_type m_d0 m_ds].
   destruct (gen_ty mods t) as [r|] eqn:G; [|discriminate]. intros E. inversion E. subst fs. clear E.
   rewrite <- opt_flag_agrees.
@@ -310,10 +345,7 @@ Proof.
   { intros d Hin.
     unfold field_shape, ms_erase. cbn [f_attrs f_name f_ty ms_name ms_kind ms_key ms_id ms_opt].
     rewrite (opt_kind_ok eb ed mods t r d _ Hwf Hb (Hds d Hin) G).
-    destruct ea; [reflexivity|].
-    apply imp_false in Hsp. unfold member_split in Hsp. cbn [m_annots] in Hsp.
-    rewrite view_one_attrs. destruct (rec_args A) as [|a [|b R']]; [reflexivity| |discriminate].
-    reflexivity. }
+    rewrite view_one_attrs. reflexivity. }
   cbn [map]. f_equal.
   - apply Hone. left. reflexivity.
   - rewrite !map_map. apply map_ext_in. intros d Hin. apply Hone. right. exact Hin.
@@ -411,12 +443,11 @@ Lemma members_shape_ok : forall eb ed ea mods ms fs,
   forallb (fun m => tspec_wf (m_type m)) ms = true ->
   (existsb (fun m => tspec_bounded (m_type m)) ms = true -> eb = true) ->
   (existsb (fun m => existsb multi_dim (m_d0 m :: m_ds m)) ms = true -> ed = true) ->
-  (existsb member_split ms = true -> ea = true) ->
   concat_opt (map (gen_member mods) ms) = Some fs ->
   map (ms_erase eb ed ea) (map (field_shape (length mods)) fs)
   = map (ms_erase eb ed ea) (flat_map member_shapes ms).
 Proof.
-  intros eb ed ea mods ms fs Hwf Hb Hd Hsp H.
+  intros eb ed ea mods ms fs Hwf Hb Hd H.
   rewrite map_flat_map.
   apply (concat_opt_map (gen_member mods)
            (fun fs => map (ms_erase eb ed ea) (map (field_shape (length mods)) fs))
@@ -428,7 +459,6 @@ Proof.
     + apply Hwf. exact Hin.
     + intros E. eapply (imp_existsb _ eb ms m Hb Hin). exact E.
     + intros E. eapply (imp_existsb _ ed ms m Hd Hin). exact E.
-    + intros E. eapply (imp_existsb _ ea ms m Hsp Hin). exact E.
   - exact H.
 Qed.
 
@@ -437,9 +467,15 @@ Proof. reflexivity. Qed.
 
 Lemma parent_eqb : ("parent" =? "parent") = true. Proof. reflexivity. Qed.
 
+Lemma ext_only_no {A} (sel : rarg -> option A) : (forall s, sel (AExt s) = None) ->
+  forall X, Forall is_ext_arg X -> pick sel X = None.
+Proof.
+  intros Hs X HE. apply pick_none. intros a Hin. rewrite Forall_forall in HE.
+  specialize (HE a Hin). destruct a; try destruct HE. apply Hs.
+Qed.
+
 Lemma struct_ev_ok : forall eb ed ea mods A n base fs ms,
   match base with Some (_, p) => head_ok p | None => true end = true ->
-  (struct_split mods A base = true -> ea = true) ->
   map (ms_erase eb ed ea) (map (field_shape (length mods)) fs)
   = map (ms_erase eb ed ea) (flat_map member_shapes ms) ->
   ev_erase eb ed ea
@@ -456,22 +492,29 @@ Lemma struct_ev_ok : forall eb ed ea mods A n base fs ms,
          (match base with Some (abs, p) => Some (name_kind abs p) | None => None end)
          (flat_map member_shapes ms)).
 Proof.
-  intros eb ed ea mods A n base fs ms Hbase Hsp HM.
-  unfold struct_shape. cbv zeta. rewrite !view_derive.
-  pose proof (ext_args_are_ext A) as HE. unfold struct_split in Hsp.
+  intros eb ed ea mods A n base fs ms Hbase HM.
+  unfold struct_shape. cbv zeta. rewrite !view_derive, !view_app, view_one_attrs.
+  pose proof (ext_args_are_ext A) as HE.
   pose proof (scoped_kind mods) as SK.
-  destruct (flat_map ext_arg A) as [|x X']; [|inversion HE as [|? ? Hx _]; destruct x; try destruct Hx];
+  unfold qname_of, find_ext, find_name, find_base.
+  pose proof (ext_only_no (fun a => match a with AName s => Some s | _ => None end) (fun _ => eq_refl) _ HE) as XN.
+  pose proof (ext_only_no (fun a => match a with ABase p => Some p | _ => None end) (fun _ => eq_refl) _ HE) as XB.
   destruct mods as [|m mods']; destruct base as [[abs p]|];
-  cbn [map app one_attr name_attr view find_base find_ext qname_of find_name length in_module
-       f_name f_ty f_attrs kind_of_rty] in *;
+  cbn [name_attr view app length f_name f_ty f_attrs kind_of_rty] in *;
+  rewrite !pick_app; cbn [pick fold_left]; rewrite ?XN, ?XB;
   try rewrite !(SK _ _ Hbase); try rewrite kind_eqb_refl; try rewrite parent_eqb; cbn [andb];
-  (destruct ea;
+  (destruct (pick (fun a => match a with AExt s => Some s | _ => None end) (flat_map ext_arg A));
+   destruct ea;
    [ cbn [ev_erase]; f_equal; fold notparent;
      rewrite <- !(filter_map_comm notparent (ms_erase eb ed true)) by reflexivity;
      cbn [map filter field_shape f_name ms_erase ms_name notparent is_parent negb];
      try rewrite parent_eqb; cbn [negb]; rewrite <- ?HM; reflexivity
-   | try (assert (false = true) by (apply Hsp; apply Nat.ltb_lt; cbn [length]; lia); discriminate);
-     cbn [ev_erase]; rewrite ?HM; reflexivity ]).
+   | cbn [ev_erase]; rewrite ?HM; reflexivity
+   | cbn [ev_erase]; f_equal; fold notparent;
+     rewrite <- !(filter_map_comm notparent (ms_erase eb ed true)) by reflexivity;
+     cbn [map filter field_shape f_name ms_erase ms_name notparent is_parent negb];
+     try rewrite parent_eqb; cbn [negb]; rewrite <- ?HM; reflexivity
+   | cbn [ev_erase]; rewrite ?HM; reflexivity ]).
 Qed.
 
 Lemma struct_shape_ok : forall eb ed ea mods A n base ms items,
@@ -479,19 +522,14 @@ Lemma struct_shape_ok : forall eb ed ea mods A n base ms items,
   forallb (fun m => tspec_wf (m_type m)) ms = true ->
   (existsb (fun m => tspec_bounded (m_type m)) ms = true -> eb = true) ->
   (existsb (fun m => existsb multi_dim (m_d0 m :: m_ds m)) ms = true -> ed = true) ->
-  (struct_split mods A base || existsb member_split ms = true -> ea = true) ->
   gen_struct mods A n base ms = Some items ->
   map (ev_erase eb ed ea) (shape_of_items (length mods) items)
   = map (ev_erase eb ed ea) (shape_of_def mods (DStruct A n base ms)).
 Proof.
-  intros eb ed ea mods A n base ms items Hbase Hwf Hb Hd Hsp.
+  intros eb ed ea mods A n base ms items Hbase Hwf Hb Hd.
   unfold gen_struct. destruct (concat_opt (map (gen_member mods) ms)) as [fs|] eqn:CO; [|discriminate].
   intros E. inversion E. subst items. clear E.
-  assert (Hsp1 : struct_split mods A base = true -> ea = true)
-    by (intros H; apply Hsp; rewrite H; reflexivity).
-  assert (Hsp2 : existsb member_split ms = true -> ea = true)
-    by (intros H; apply Hsp; rewrite H; apply orb_true_r).
-  pose proof (members_shape_ok eb ed ea mods ms fs Hwf Hb Hd Hsp2 CO) as HM.
+  pose proof (members_shape_ok eb ed ea mods ms fs Hwf Hb Hd CO) as HM.
   unfold shape_of_items. cbn [flat_map shape_of_item shape_of_def app]. rewrite derives_std. cbn [app map].
   cbn [map]. f_equal. apply struct_ev_ok; assumption.
 Qed.
@@ -502,24 +540,30 @@ Lemma enum_variants_plain : forall es,
   forallb (fun va => match v_fields va with None => true | _ => false end) (map gen_enumerator es) = true.
 Proof. induction es; cbn [map forallb]; [reflexivity | exact IHes]. Qed.
 
+Lemma view_bit_bounds : forall B, view (map (fun e => RDds [ABitBound e]) B) = map ABitBound B.
+Proof. induction B as [|b B IH]; [reflexivity|]. cbn [map view app]. rewrite IH. reflexivity. Qed.
+
+Lemma bit_bounds_no {A} (sel : rarg -> option A) : (forall e, sel (ABitBound e) = None) ->
+  forall B, pick sel (map ABitBound B) = None.
+Proof.
+  intros Hs B. apply pick_none. intros a Hin. apply in_map_iff in Hin. destruct Hin as [e [<- _]]. apply Hs.
+Qed.
+
 Lemma enum_shape_ok : forall eb ed ea mods A n es,
-  (enum_split mods A = true -> ea = true) ->
   map (ev_erase eb ed ea) (shape_of_items (length mods) (gen_enum mods A n es))
   = map (ev_erase eb ed ea)
-      [EEnum n (mods ++ [n]) (hd_opt (flat_map bit_bound_arg A))
+      [EEnum n (mods ++ [n]) (find_bit_bound (map ABitBound (flat_map bit_bound_arg A)))
              (map (fun e => (e_name e, flat_map value_arg (e_annots e))) es)].
 Proof.
-  intros eb ed ea mods A n es Hsp. unfold gen_enum, shape_of_items.
+  intros eb ed ea mods A n es. unfold gen_enum, shape_of_items.
   cbn [flat_map shape_of_item app]. rewrite derives_std. cbn [app map]. f_equal.
-  unfold enum_shape. cbv zeta. rewrite !view_derive. rewrite enum_variants_plain.
-  rewrite map_map. cbn [gen_enumerator v_name v_disc].
-  unfold enum_split in Hsp.
-  destruct mods as [|m mods']; destruct (flat_map bit_bound_arg A) as [|b [|b2 B]];
-  cbn [name_attr map app view find_switch find_bit_bound qname_of find_name hd_opt length in_module] in *;
-  (destruct ea;
-   [ rewrite ?map_map; reflexivity
-   | try (assert (false = true) by (apply Hsp; apply Nat.ltb_lt; cbn [length]; lia); discriminate);
-     rewrite ?map_map; reflexivity ]).
+  unfold enum_shape. cbv zeta. rewrite !view_derive, !view_app, view_bit_bounds. rewrite enum_variants_plain.
+  unfold qname_of, find_switch, find_name, find_bit_bound. rewrite !pick_app.
+  rewrite (bit_bounds_no (fun a => match a with ASwitch p => Some p | _ => None end) (fun _ => eq_refl)).
+  rewrite (bit_bounds_no (fun a => match a with AName s => Some s | _ => None end) (fun _ => eq_refl)).
+  destruct mods as [|m mods']; cbn [name_attr view app pick fold_left];
+  (destruct (pick (fun a => match a with ABitBound e => Some e | _ => None end) (map ABitBound (flat_map bit_bound_arg A)));
+   destruct ea; cbn [ev_erase]; rewrite ?map_map; reflexivity).
 Qed.
 
 (* -------------------------------------------------------------------- unions *)
@@ -552,6 +596,7 @@ Proof.
   intros E. inversion E. subst va. clear E. unfold variant_case. cbn [v_fields v_attrs view f_name f_ty].
   eexists. split; [reflexivity|]. unfold case_shape, cs_erase.
   cbn [uc_l0 uc_ls uc_type uc_decl cs_labels cs_default cs_name cs_kind].
+  cbn [app]. rewrite !app_nil_r.
   change (label_arg l0 :: map label_arg ls) with (map label_arg (l0 :: ls)).
   rewrite case_labels_ok, case_default_ok. f_equal. apply decl_kind_ok; assumption.
 Qed.
@@ -605,9 +650,10 @@ Proof.
   intros E. inversion E. subst items. clear E.
   destruct (cases_shape_ok eb ed mods cs vs Hwf Hb Hd AO) as [cs' [V EQ]].
   unfold shape_of_items. cbn [flat_map shape_of_item app]. rewrite derives_std. cbn [app map]. f_equal.
-  unfold enum_shape. cbv zeta. rewrite view_derive. cbn [view find_switch]. rewrite V.
-  rewrite (switch_kind mods disc Hdisc). cbn [ev_erase]. rewrite EQ. f_equal.
-  destruct mods; reflexivity.
+  unfold enum_shape. cbv zeta. rewrite view_derive.
+  pose proof (switch_kind mods disc Hdisc) as SK.
+  destruct mods as [|m mods']; cbn [view app find_switch qname_of find_name pick fold_left length] in *;
+    rewrite V, SK; cbn [ev_erase]; rewrite EQ; reflexivity.
 Qed.
 
 (* ------------------------------------------------------- typedefs and constants *)
@@ -694,17 +740,16 @@ Proof. intros. unfold shape_of_items. apply flat_map_app. Qed.
 Lemma gen_def_shape : forall eb ed ea d mods items,
   def_wf d = true ->
   (def_bounded d = true -> eb = true) -> (def_multi_dim d = true -> ed = true) ->
-  (def_split mods d = true -> ea = true) ->
   gen_def mods d = Some items ->
   map (ev_erase eb ed ea) (shape_of_items (length mods) items)
   = map (ev_erase eb ed ea) (shape_of_def mods d).
 Proof.
-  intros eb ed ea d. induction d using def_ind2; intros mods items Hwf Hb Hd Hsp G.
+  intros eb ed ea d. induction d using def_ind2; intros mods items Hwf Hb Hd G.
   - (* module *)
     cbn [gen_def] in G.
     destruct (concat_opt (map (gen_def (mods ++ [n])) body)) as [its|] eqn:CO; [|discriminate].
     inversion G. subst items. clear G.
-    cbn [def_wf def_bounded def_multi_dim def_split] in *.
+    cbn [def_wf def_bounded def_multi_dim] in *.
     unfold shape_of_items. cbn [flat_map shape_of_item shape_of_def]. rewrite app_nil_r.
     cbn [map]. rewrite !map_app. cbn [map ev_erase]. f_equal. f_equal.
     change (flat_map (shape_of_item (S (length mods))) its) with (shape_of_items (S (length mods)) its).
@@ -721,15 +766,14 @@ Proof.
       * apply Hwf. exact Hin.
       * intros E. exact (imp_existsb _ eb body d Hb Hin E).
       * intros E. exact (imp_existsb _ ed body d Hd Hin E).
-      * intros E. exact (imp_existsb _ ea body d Hsp Hin E).
     + exact CO.
   - (* struct *)
-    cbn [gen_def def_wf def_bounded def_multi_dim def_split] in *.
+    cbn [gen_def def_wf def_bounded def_multi_dim] in *.
     apply andb_true_iff in Hwf. destruct Hwf as [Hw1 Hw2].
     apply struct_shape_ok; assumption.
   - (* enum *)
-    cbn [gen_def def_split] in *. inversion G. subst items.
-    apply enum_shape_ok. exact Hsp.
+    cbn [gen_def] in *. inversion G. subst items.
+    apply enum_shape_ok.
   - (* union *)
     cbn [gen_def def_wf def_bounded def_multi_dim] in *.
     apply andb_true_iff in Hwf. destruct Hwf as [Hw1 Hw2].
@@ -750,12 +794,11 @@ Qed.
 Lemma gen_defs_shape : forall eb ed ea mods defs items,
   forallb def_wf defs = true ->
   (existsb def_bounded defs = true -> eb = true) -> (existsb def_multi_dim defs = true -> ed = true) ->
-  (existsb (def_split mods) defs = true -> ea = true) ->
   gen_defs mods defs = Some items ->
   map (ev_erase eb ed ea) (shape_of_items (length mods) items)
   = map (ev_erase eb ed ea) (shape_of_defs mods defs).
 Proof.
-  intros eb ed ea mods defs items Hwf Hb Hd Hsp G. unfold gen_defs in G. unfold shape_of_defs.
+  intros eb ed ea mods defs items Hwf Hb Hd G. unfold gen_defs in G. unfold shape_of_defs.
   rewrite map_flat_map.
   apply (concat_opt_map (gen_def mods)
            (fun l => map (ev_erase eb ed ea) (shape_of_items (length mods) l))
@@ -766,7 +809,6 @@ Proof.
     + apply Hwf. exact Hin.
     + intros E. exact (imp_existsb _ eb defs d Hb Hin E).
     + intros E. exact (imp_existsb _ ed defs d Hd Hin E).
-    + intros E. exact (imp_existsb _ ea defs d Hsp Hin E).
   - exact G.
 Qed.
 
@@ -894,24 +936,23 @@ Theorem structure_preserved_upto_classes : forall eb ed ea defs items,
   supported defs = true ->
   (known_bounds defs = true -> eb = true) ->
   (known_multi_dim defs = true -> ed = true) ->
-  (known_split defs = true -> ea = true) ->
   compile_defs defs = Ok items ->
   map (ev_erase eb ed ea) (shape_of_items 0 items) = map (ev_erase eb ed ea) (shape_of_defs [] defs).
 Proof.
-  intros eb ed ea defs items H Hb Hd Hsp C. unfold compile_defs in C.
+  intros eb ed ea defs items H Hb Hd C. unfold compile_defs in C.
   rewrite (supported_parse_ok defs H) in C.
   destruct (gen_defs [] defs) as [its|] eqn:G; [|discriminate]. inversion C. subst its.
-  apply (gen_defs_shape eb ed ea [] defs items (supported_wf defs H) Hb Hd Hsp G).
+  apply (gen_defs_shape eb ed ea [] defs items (supported_wf defs H) Hb Hd G).
 Qed.
 
 (* THE property: outside the four recorded classes the declared structure is preserved exactly *)
 Theorem idl_structure_preserved : forall defs,
   supported defs = true ->
   known_bounds defs = false ->
-  known_multi_dim defs = false -> known_split defs = false ->
+  known_multi_dim defs = false ->
   exists items, compile_defs defs = Ok items /\ shape_of_items 0 items = shape_of_defs [] defs.
 Proof.
-  intros defs H K1 K3 K4. destruct (compile_total_on_supported defs H) as [items C].
+  intros defs H K1 K3. destruct (compile_total_on_supported defs H) as [items C].
   exists items. split; [exact C|].
   pose proof (structure_preserved_upto_classes false false false defs items H) as P.
   rewrite !evs_erase_none in P. apply P; try exact C; intros E; congruence.
@@ -920,12 +961,12 @@ Qed.
 (* everything except bounds is preserved as soon as classes 2-4 are absent *)
 Theorem structure_preserved_except_bounds : forall defs items,
   supported defs = true ->
-  known_multi_dim defs = false -> known_split defs = false ->
+  known_multi_dim defs = false ->
   compile_defs defs = Ok items ->
   map (ev_erase true false false) (shape_of_items 0 items)
   = map (ev_erase true false false) (shape_of_defs [] defs).
 Proof.
-  intros defs items H K3 K4 C.
+  intros defs items H K3 C.
   apply (structure_preserved_upto_classes true false false defs items H); try exact C; intros E; congruence.
 Qed.
 
@@ -999,8 +1040,7 @@ Section Clauses.
     cbn [ev_erase]. rewrite map_map. reflexivity.
   Qed.
 
-  (* attributes intact (classes 2 and 4 absent); bounds and dimensions do not matter: *)
-  Hypothesis K4 : known_split defs = false.
+  (* what lives in attributes (both classes that touched it are fixed); bounds and dimensions do not matter: *)
 
   Let Hattr : map (ev_erase (known_bounds defs) (known_multi_dim defs) false) (shape_of_items 0 items)
               = map (ev_erase (known_bounds defs) (known_multi_dim defs) false) (shape_of_defs [] defs).
@@ -1086,7 +1126,7 @@ Definition w_split : list def :=
 Definition only_class (k : N) (defs : list def) : Prop :=
   supported defs = true /\
   known_bounds defs = N.eqb k 1 /\
-  known_multi_dim defs = N.eqb k 3 /\ known_split defs = N.eqb k 4.
+  known_multi_dim defs = N.eqb k 3.
 
 Lemma bounds_refuted : exists defs items,
   only_class 1 defs /\ compile_defs defs = Ok items
@@ -1121,16 +1161,23 @@ Proof.
   - vm_compute. discriminate.
 Qed.
 
-Lemma split_refuted : exists defs items,
-  only_class 4 defs /\ compile_defs defs = Ok items
-  /\ keys_of (shape_of_items 0 items) <> keys_of (shape_of_defs [] defs)
-  /\ struct_headers_of (shape_of_items 0 items) <> struct_headers_of (shape_of_defs [] defs).
+(* the former class 4 (fixed in /repo by 99bf327: the derive reads every #[dust_dds] attribute):
+   `module M { @mutable struct A { @id(7) @key long y; }; };` keeps key, id, extensibility and
+   qualified name *)
+Lemma split_attributes_preserved : exists items,
+  only_class 0 w_split /\ compile_defs w_split = Ok items
+  /\ keys_of (shape_of_items 0 items) = [("A", ["y"])]
+  /\ ids_of (shape_of_items 0 items) = [("A", [("y", Some "7")])]
+  /\ struct_headers_of (shape_of_items 0 items) = [("A", (["M"; "A"], Some "mutable", None))]
+  /\ shape_of_items 0 items = shape_of_defs [] w_split.
 Proof.
-  exists w_split. eexists. split; [|split; [|split]].
+  eexists. split; [|split; [|split; [|split; [|split]]]].
   - repeat split; vm_compute; reflexivity.
   - vm_compute. reflexivity.
-  - vm_compute. discriminate.
-  - vm_compute. discriminate.
+  - vm_compute. reflexivity.
+  - vm_compute. reflexivity.
+  - vm_compute. reflexivity.
+  - vm_compute. reflexivity.
 Qed.
 
 (* ------------------------------------------------------------- Err and Panic *)
@@ -1246,7 +1293,6 @@ Proof. intros. unfold compile, preprocess. cbn [pp_items]. rewrite pp_if. reflex
 (* combined forms used by Props/C41.v *)
 Lemma headers_preserved : forall defs items,
   supported defs = true -> compile_defs defs = Ok items ->
-  known_split defs = false ->
   struct_headers_of (shape_of_items 0 items) = struct_headers_of (shape_of_defs [] defs)
   /\ enums_of (shape_of_items 0 items) = enums_of (shape_of_defs [] defs).
 Proof. intros. split; [apply struct_headers_preserved | apply enums_preserved]; assumption. Qed.
